@@ -41,8 +41,12 @@ func staticOpts(i int, r *rand.Rand) spec.GenOpts {
 func isolatedFeatureSpecs(seed int64, n int) []*spec.Spec {
 	var out []*spec.Spec
 	r := rand.New(rand.NewSource(seed))
+	total := spec.RawCases + spec.ExtInCases
 	for i := 0; i < n; i++ {
-		o := spec.GenOpts{MaxProvs: 2 + r.Intn(3), AsyncP: []float64{0, 1.0}[i%2], ErrP: 0.3, MultiInj: 1 + i%2, Files: 1, Static: true, Fanout: 2, ReuseP: 20}
+		// every static type construct in turn, alone in a tiny program: sync and
+		// Async, as provider input / injector argument / requested type
+		o := spec.GenOpts{MaxProvs: 1 + r.Intn(3), AsyncP: []float64{0, 1.0}[(i/total)%2], ErrP: 0.3, MultiInj: 1 + (i/(2*total))%2, Files: 1, Static: true, Ext: true,
+			Fanout: 2, ReuseP: 20, ForceRaw: 1 + i%total, NoSets: true}
 		s := spec.Generate(seed*977+int64(i)*13, fmt.Sprintf("f%04d", i), o)
 		out = append(out, s)
 	}
@@ -123,8 +127,22 @@ func prepareStatic(prop string, specs []*spec.Spec, types bool) *staticRun {
 			per = append(per, p)
 		}
 	}
-	w.Generate(one, true)
+	// every fourth "one invocation" program is generated together with its
+	// neighbour in a single CLI invocation spanning two packages (the name
+	// allocator is shared across all files of an invocation)
+	var solo []*runner.Prog
+	var pairs [][2]*runner.Prog
+	for i := 0; i < len(one); i++ {
+		if i%4 == 0 && i+1 < len(one) {
+			pairs = append(pairs, [2]*runner.Prog{one[i], one[i+1]})
+			i++
+			continue
+		}
+		solo = append(solo, one[i])
+	}
+	w.Generate(solo, true)
 	w.Generate(per, false)
+	base.Parallel(len(pairs), 16, func(i int) { w.GenerateTogether(pairs[i][0], pairs[i][1]) })
 	for _, p := range gen {
 		if p.GenOK && len(p.Band) > 0 {
 			base.WriteFile(filepath.Join(p.Dir, "zz_expect.go"), expectFile(p.Spec))
@@ -239,7 +257,7 @@ func CheckC04(tier string) {
 	rep.Assumptions = []string{"the user package alone compiles (checked first; a failure there is a harness bug and counts as inconclusive)", "compile errors only; vet-style diagnostics are ignored"}
 	n := tierN(tier, 220, 3000)
 	specs := dynFamily(n, base.Seed()+4000, "s", staticOpts)
-	specs = append(specs, isolatedFeatureSpecs(base.Seed()+4100, tierN(tier, 60, 400))...)
+	specs = append(specs, isolatedFeatureSpecs(base.Seed()+4100, tierN(tier, 168, 840))...)
 	specs = append(specs, dynFamily(tierN(tier, 40, 300), base.Seed()+4200, "d", defaultOpts)...)
 	specs = append(specs, corpusSpecs("C04")...)
 	sr := prepareStatic("C04", specs, false)
@@ -345,6 +363,7 @@ func CheckC10(tier string) {
 		o.MultiInj = 2 + r.Intn(3)
 		return o
 	})...)
+	specs = append(specs, isolatedFeatureSpecs(base.Seed()+5200, tierN(tier, 84, 420))...)
 	specs = append(specs, corpusSpecs("C10")...)
 	sr := prepareStatic("C10", specs, true)
 	for _, p := range sr.Progs {
